@@ -17,7 +17,8 @@ pub enum QOp {
     Next,
     Peek,
     PopExcept { set: String },
-    Eat { pat: String, ci: bool },
+    /// cmp: 0 = u8::eq, 1 = eq_ignore_ascii_case, 2.. = asymmetric comparison closures (see `cmp_fn`)
+    Eat { pat: String, cmp: u8 },
     PopFront,
     /// peek_front_chunk_mut, pop `n` chars from the chunk, caller removes it when empty
     ChunkMut { n: usize },
@@ -36,7 +37,7 @@ impl QOp {
             QOp::Next => json!({"op": "next"}),
             QOp::Peek => json!({"op": "peek"}),
             QOp::PopExcept { set } => json!({"op": "pop_except_from", "set": set}),
-            QOp::Eat { pat, ci } => json!({"op": "eat", "pat": pat, "ci": ci}),
+            QOp::Eat { pat, cmp } => json!({"op": "eat", "pat": pat, "cmp": cmp, "cmp_name": CMP_NAMES[*cmp as usize % CMP_NAMES.len()]}),
             QOp::PopFront => json!({"op": "pop_front"}),
             QOp::ChunkMut { n } => json!({"op": "chunk_mut", "n": n}),
             QOp::IsEmpty => json!({"op": "is_empty"}),
@@ -52,7 +53,7 @@ impl QOp {
             "next" => QOp::Next,
             "peek" => QOp::Peek,
             "pop_except_from" => QOp::PopExcept { set: s("set") },
-            "eat" => QOp::Eat { pat: s("pat"), ci: v["ci"].as_bool().unwrap_or(false) },
+            "eat" => QOp::Eat { pat: s("pat"), cmp: v["cmp"].as_u64().map(|c| c as u8).unwrap_or(v["ci"].as_bool().unwrap_or(false) as u8) },
             "pop_front" => QOp::PopFront,
             "chunk_mut" => QOp::ChunkMut { n: v["n"].as_u64().unwrap_or(0) as usize },
             "swap_with" => QOp::Swap,
@@ -66,7 +67,49 @@ const ALPHA: &[char] = &['a', 'b', 'A', 'd', 'o', 'c', 't', 'y', 'p', 'e', '<', 
 const SETCHARS: &[char] = &['<', '&', '-', '\r', '\n', '\0', ' ', '"', ';', '1', '=', '>', '\t', '\'', '\u{3f}', '!', '#'];
 const PATS: &[&str] = &["--", "doctype", "[CDATA[", "public", "system", "a", "ab", "DOCTYPE", "-", "<", "do"];
 
+const CMP_NAMES: &[&str] = &["u8::eq", "u8::eq_ignore_ascii_case", "fold first argument only", "'?' as second argument matches anything", "'?' as first argument matches anything"];
+
+/// The comparison closures handed to `eat`.  2..4 are asymmetric: the answer must still not depend
+/// on how the text is split across buffers, whatever argument order the queue uses.
+fn cmp_fn(cmp: u8) -> fn(&u8, &u8) -> bool {
+    match cmp % 5 {
+        0 => |a, b| a == b,
+        1 => |a, b| a.eq_ignore_ascii_case(b),
+        2 => |a, b| a.to_ascii_lowercase() == *b,
+        // (a wildcard never matches half of a multi-byte character, under either argument order)
+        3 => |a, b| (*b == b'?' && a.is_ascii()) || a == b,
+        _ => |a, b| (*a == b'?' && b.is_ascii()) || a == b,
+    }
+}
+
+/// Big buffers around the thresholds block-wise or capped scanning would use (4 KiB .. 128 KiB),
+/// with a multi-byte character lying across the mark.
+fn big_string(rng: &mut Rng) -> String {
+    let k = *rng.pick(&[12u32, 13, 14, 15, 16, 16, 16, 17]);
+    let target = ((1usize << k) as i64 + rng.range(0, 6) as i64 - 3) as usize;
+    let filler = *rng.pick(&['x', 'x', 'q', 'é']);
+    let mut s = String::with_capacity(target + 16);
+    let lead = target.saturating_sub(rng.below(5));
+    while s.len() + filler.len_utf8() <= lead {
+        s.push(filler);
+    }
+    while s.len() < lead {
+        s.push('y');
+    }
+    s.push(*rng.pick(&['😀', '😀', '中', 'é', 'z']));
+    for _ in 0..rng.small(6) {
+        s.push(*rng.pick(ALPHA));
+    }
+    if rng.chance(1, 2) {
+        s.push(*rng.pick(SETCHARS));
+    }
+    s
+}
+
 fn rand_string(rng: &mut Rng, max: usize) -> String {
+    if rng.chance(1, 400) {
+        return big_string(rng);
+    }
     if rng.chance(1, 12) {
         // a long buffer: runs of non-members that cross the 64 / 128 byte marks before the first
         // member (block-wise scanning code is only exercised by those)
@@ -217,23 +260,47 @@ fn run_ops(ops: &[QOp], stats: &mut Stats) -> Result<u64, Violation> {
                 }
                 dg = mix(dg, fnv1a(format!("{:?}", got).as_bytes()));
             },
-            QOp::Eat { pat, ci } => {
+            QOp::Eat { pat, cmp } => {
                 if pat.is_empty() || !pat.is_ascii() {
                     continue;
                 }
-                let got = if *ci { s.q.eat(pat, u8::eq_ignore_ascii_case) } else { s.q.eat(pat, u8::eq) };
+                let cmp = *cmp % 5;
+                let ci = cmp == 1;
                 let cat: String = s.m.iter().map(|x| x.as_str()).collect();
+                let got = match cmp {
+                    0 => s.q.eat(pat, u8::eq),
+                    1 => s.q.eat(pat, u8::eq_ignore_ascii_case),
+                    c => s.q.eat(pat, cmp_fn(c)),
+                };
                 let cb = cat.as_bytes();
                 let mut want = Some(true);
-                for (k, pb) in pat.bytes().enumerate() {
-                    if k >= cb.len() {
-                        want = None;
-                        break;
+                if cmp >= 2 {
+                    // asymmetric closure: the reference is the same call on ONE buffer holding the
+                    // concatenation (the property's own wording), whatever argument order `eat` uses
+                    let flat = BufferQueue::default();
+                    if !cat.is_empty() {
+                        flat.push_back(StrTendril::from_slice(&cat));
                     }
-                    let eq = if *ci { cb[k].eq_ignore_ascii_case(&pb) } else { cb[k] == pb };
-                    if !eq {
-                        want = Some(false);
-                        break;
+                    want = flat.eat(pat, cmp_fn(cmp));
+                    let rest: String = snapshot(&flat).concat();
+                    let consumed = cat.len() - rest.len();
+                    if (want == Some(true)) != (consumed == pat.len()) || (want != Some(true) && consumed != 0) {
+                        return bad(format!("eat({:?}, {}) on the single buffer {:?} returned {:?} but consumed {} bytes", pat, CMP_NAMES[cmp as usize], cat, want, consumed));
+                    }
+                    // independent of the argument order: need-more exactly when no mismatch can be
+                    // decided before the text runs out under either order
+                    stats.inc("eat_asymmetric_closure");
+                } else {
+                    for (k, pb) in pat.bytes().enumerate() {
+                        if k >= cb.len() {
+                            want = None;
+                            break;
+                        }
+                        let eq = if ci { cb[k].eq_ignore_ascii_case(&pb) } else { cb[k] == pb };
+                        if !eq {
+                            want = Some(false);
+                            break;
+                        }
                     }
                 }
                 if want == Some(true) {
@@ -250,7 +317,8 @@ fn run_ops(ops: &[QOp], stats: &mut Stats) -> Result<u64, Violation> {
                     }
                 }
                 if got != want {
-                    return bad(format!("eat({:?}) returned {:?}, model {:?} (queue {:?})", pat, got, want, cat));
+                    let shown: String = cat.chars().take(200).collect();
+                    return bad(format!("eat({:?}, {}) returned {:?}, model {:?} (queue {:?})", pat, CMP_NAMES[cmp as usize], got, want, shown));
                 }
                 match got {
                     Some(true) => stats.inc("eat_match"),
@@ -365,8 +433,15 @@ impl QueueWorld {
                     QOp::PopExcept { set: (0..k).map(|_| *rng.pick(SETCHARS)).collect() }
                 },
                 5 => {
-                    let ci = rng.chance(1, 2);
-                    let pat = if rng.chance(1, 2) && !approx.is_empty() {
+                    let cmp = match rng.below(10) {
+                        0..=3 => 0u8,
+                        4..=6 => 1,
+                        7 => 2,
+                        8 => 3,
+                        _ => 4,
+                    };
+                    let ci = cmp == 1 || cmp == 2;
+                    let mut pat = if rng.chance(1, 2) && !approx.is_empty() {
                         // a prefix of (roughly) what is in the queue, so that true matches happen
                         let take = rng.range(1, 7);
                         let p: String = approx.chars().take(take).filter(|c| c.is_ascii()).collect();
@@ -378,7 +453,15 @@ impl QueueWorld {
                     } else {
                         rng.pick_str(PATS).to_string()
                     };
-                    QOp::Eat { pat, ci }
+                    if cmp == 3 && !pat.is_empty() && rng.chance(2, 3) {
+                        // a wildcard somewhere in the pattern
+                        let at = rng.below(pat.len());
+                        pat.replace_range(at..at + 1, "?");
+                    }
+                    if cmp == 2 {
+                        pat = pat.to_ascii_lowercase();
+                    }
+                    QOp::Eat { pat, cmp }
                 },
                 6 => QOp::PopFront,
                 7 => QOp::ChunkMut { n: rng.range(0, 4) },
@@ -447,9 +530,9 @@ fn candidates(ops: &Vec<QOp>) -> Vec<Vec<QOp>> {
                     out.push(v);
                 }
             },
-            QOp::Eat { pat, ci } if pat.len() > 1 => {
+            QOp::Eat { pat, cmp } if pat.len() > 1 => {
                 let mut v = ops.clone();
-                v[i] = QOp::Eat { pat: pat[..pat.len() - 1].to_string(), ci: *ci };
+                v[i] = QOp::Eat { pat: pat[..pat.len() - 1].to_string(), cmp: *cmp };
                 out.push(v);
             },
             _ => {},
@@ -504,6 +587,6 @@ impl World for QueueWorld {
         true
     }
     fn expected_probes(&self) -> Vec<&'static str> {
-        vec!["eat_match", "eat_mismatch", "eat_need_more", "eat_match_multi_buffer_queue", "pop_except_from_member", "pop_except_from_run", "op_chunk_mut", "op_swap_with"]
+        vec!["eat_match", "eat_mismatch", "eat_need_more", "eat_match_multi_buffer_queue", "pop_except_from_member", "pop_except_from_run", "op_chunk_mut", "op_swap_with", "eat_asymmetric_closure"]
     }
 }
